@@ -16,24 +16,76 @@ let z_of_hex (s : string) : z =
       acc := (match !acc with None -> if b then Some XH else None | Some p -> Some (if b then XI p else XO p))
     done) s;
   match !acc with None -> Z0 | Some p -> if neg then Zneg p else Zpos p
+let hex_of_z (x : z) : string =
+  match x with
+  | Z0 -> "0"
+  | Zpos p | Zneg p ->
+    let rec bits p acc = match p with XH -> 1 :: acc | XO q -> bits q (0 :: acc) | XI q -> bits q (1 :: acc) in
+    (* most significant first *)
+    let bs = bits p [] in
+    let n = List.fold_left (fun acc b -> acc * 2 + b) 0 bs in   (* values printed by the replay fit in 63 bits except addresses *)
+    if List.length bs <= 62 then (match x with Zneg _ -> Printf.sprintf "-%x" n | _ -> Printf.sprintf "%x" n)
+    else begin
+      (* big: print hex digit by digit *)
+      let arr = Array.of_list bs in let len = Array.length arr in
+      let pad = (4 - len mod 4) mod 4 in
+      let get i = if i < pad then 0 else arr.(i - pad) in
+      let buf = Buffer.create 20 in
+      let total = len + pad in
+      let i = ref 0 in
+      while !i < total do
+        let d = get !i * 8 + get (!i + 1) * 4 + get (!i + 2) * 2 + get (!i + 3) in
+        Buffer.add_char buf "0123456789abcdef".[d]; i := !i + 4
+      done;
+      (match x with Zneg _ -> "-" | _ -> "") ^ Buffer.contents buf
+    end
 let rec int_of_pos p = match p with XH -> 1 | XO q -> 2 * int_of_pos q | XI q -> 2 * int_of_pos q + 1
 let int_of_z x = match x with Z0 -> 0 | Zpos p -> int_of_pos p | Zneg p -> - (int_of_pos p)
 
+let rec z_of_int n = if n = 0 then Z0 else if n > 0 then Zpos (pos_of_int n) else Zneg (pos_of_int (-n))
+and pos_of_int n = if n = 1 then XH else if n land 1 = 0 then XO (pos_of_int (n lsr 1)) else XI (pos_of_int (n lsr 1))
+let rec nat_of_int n = if n <= 0 then O else S (nat_of_int (n - 1))
+
+(* whole-run replay: "R <tid> <kind> <creates...>" starts a thread, "F <stamp> <event fields>" appends an event (stamps are
+   already doubled by the caller so that synthetic events fit in between), "." ends it; "G <oc> <p0> <window>" abstracts
+   every thread (RootQR.abstract), merges the actions by key (stable: program order is kept) and runs RootQR.replay *)
 let () =
   let sv = ref Z0 and evs = ref [] in
+  let rt = ref None and fevs = ref [] and threads = ref [] in
   try
     while true do
       let l = input_line stdin in
       if l = "." then begin
-        let (i, c) = conform !sv (List.rev !evs) in
-        Printf.printf "%d %d\n%!" (int_of_z i) (int_of_z c);
-        evs := []
+        (match !rt with
+         | Some (tid, kind, cr) -> threads := (tid, kind, cr, List.rev !fevs) :: !threads; rt := None; fevs := []
+         | None ->
+           let (i, c) = conform !sv (List.rev !evs) in
+           Printf.printf "%d %d\n%!" (int_of_z i) (int_of_z c);
+           evs := [])
       end else begin
         match String.split_on_char ' ' l with
         | ["T"; s] -> sv := z_of_hex s; evs := []
         | ["E"; k; o; ob; off; sz; a; b; ok] ->
           evs := { ek = z_of_hex k; eord = z_of_hex o; eobj = z_of_hex ob; eoff = z_of_hex off; esz = z_of_hex sz; ea = z_of_hex a;
                    eb = z_of_hex b; eok = z_of_hex ok } :: !evs
+        | "R" :: tid :: kind :: cr -> rt := Some (z_of_hex tid, z_of_hex kind, List.map z_of_hex cr); fevs := []
+        | ["F"; st; k; o; ob; off; sz; a; b; ok] ->
+          fevs := (z_of_hex st, { ek = z_of_hex k; eord = z_of_hex o; eobj = z_of_hex ob; eoff = z_of_hex off; esz = z_of_hex sz;
+                                   ea = z_of_hex a; eb = z_of_hex b; eok = z_of_hex ok }) :: !fevs
+        | ["G"; oc; p0; w] ->
+          let ocb = (oc = "1") in
+          let per = List.rev_map (fun (tid, kind, cr, tr) ->
+            let acts = abstract ocb tid (start_pc kind) cr Z0 Z0 (List.map (fun (st, e) -> (Z.mul (Zpos (XO XH)) st, e)) tr) [] in
+            let nev = List.length (List.filter (fun (_, a) -> int_of_z a.r_code = 0) acts) in
+            (tid, List.length tr, nev, acts)) !threads in
+          let rejected = List.filter (fun (_, n, nev, _) -> nev <> n) per in
+          let all = List.concat (List.map (fun (_, _, _, acts) -> List.map (fun (k, a) -> (int_of_z k, a)) acts) per) in
+          let sorted = List.stable_sort (fun (k1, _) (k2, _) -> compare k1 k2) all in
+          let res = replay ocb (z_of_hex p0) (nat_of_int (int_of_string w)) (List.map snd sorted) in
+          Printf.printf "%d %d |" (List.length sorted) (List.length rejected);
+          List.iter (fun z -> Printf.printf " %s" (hex_of_z z)) res;
+          Printf.printf "\n%!";
+          threads := []
         | _ -> failwith ("bad line: " ^ l)
       end
     done
